@@ -104,6 +104,10 @@ class World:
         K = c['max_conns'] + 3
         self.pc_fn = single_var_pc('limit', list(range(1, K + 1)) + [c['limit_max']]) if c['limit'] is None else None
         ex.after_send = self.on_send
+        # a send that fails while exactly one handle is left empties the handle list: the connection is then dropped legitimately
+        # ("no workers"), whatever the list looks like at the end of the event batch (a queued replacement may be added later)
+        self.legal_drops = set()
+        if self.cfg.get('track_c01'): ex.on_send_fail = self.on_send_fail
         self.c04_marks = []; self.sends = []
 
     # ---- construction helpers
@@ -304,13 +308,19 @@ class World:
                     self.hist.append('race:'); self.acc.wit['finish_between_send_and_inc'] += 1
                     self.finish(idx)
 
+    def on_send_fail(self, ch, conn):
+        try: sid = self.sid_of(conn)[0]
+        except Exception: return
+        if len(self.handle_idxs()) == 1: self.legal_drops.add(sid)
+        else: self.legal_drops.discard(sid)
+
     def roots(self):
         """Everything the future of this path depends on (real objects + ghost state), for the canonical state signature."""
         nW = len(self.workers)
         ghost = dict(nconn=self.nconn, nticks=self.nticks, stopped=self.stopped, faulted=self.faulted_ever, fin=sorted(self.finished) if self.cfg.get('track_c01') else None, lost=sorted(self.lost_with_dead) if self.cfg.get('track_c01') else None,
                      repl=self.replacements, tail=self.sends[-(nW - 1):] if nW > 1 and self.cfg.get('track_c04') else None,
                      marks=self.c04_marks[-(nW - 1):] if nW > 1 and self.cfg.get('track_c04') else None,
-                     prev_dl=getattr(self, 'prev_dl', None), dropped=sorted(self.dropped_no_worker) if self.cfg.get('track_c01') else None, replaced=self.replaced)
+                     prev_dl=getattr(self, 'prev_dl', None), dropped=sorted(self.dropped_no_worker) if self.cfg.get('track_c01') else None, replaced=self.replaced, legal=sorted(self.legal_drops) if self.cfg.get('track_c01') else None)
         ws = [(wk['idx'], wk['gen'], wk['alive'], wk['chan'], wk['counter'], wk['inservice'], wk['owed']) for wk in self.allworkers]
         return [self.accept, self.sockets, ws, self.wq, self.cmd, self.ex.clock, ghost]
 
